@@ -703,6 +703,14 @@ class Gen:
                 self.emit("character :: cmpS*5, cmpT(2)*3", kind="component")
             if self.p(0.3):
                 self.emit("integer, pointer :: nxt => null()", kind="component")
+            if self.p(0.35):
+                self.emit("real :: cmpI = %s" % self.ch(["1.0e-6", "(2.0 + 1.5d0) * 3.0", "max(1.0, 2.5e+1)", "-0.5"]),
+                          kind="component_init")
+            if self.p(0.25):
+                self.emit("real :: cmpJ(3) = (/1.0, 2.0e0, 3.0/)", kind="component_init")
+            if self.p(0.25):
+                self.emit("character(len = 20) :: cmpK = %s" % self.ch(["'hello, world'", "\"it's (x)\"", "'a''b c'"]),
+                          kind="component_init")
             if self.std == "f2008" and self.p(0.25):
                 self.emit("real, contiguous, pointer :: cmpC(:)", kind="component", feats=("f2008",))
             if self.std == "f2008" and self.p(0.15):
@@ -721,7 +729,7 @@ class Gen:
             c = self.newcid()
             self.emit("enum, bind(c)", role="open", kind="enum", cid=c)
             self.depth += 1
-            self.emit("enumerator :: eRed = 1, eGreen", kind="enumerator")
+            self.emit("enumerator :: eRed = %s, eGreen" % self.ch(["1", "(2 + 1) * 2", "ishft(1, 3)"]), kind="enumerator")
             if self.p(0.5):
                 self.emit("enumerator eBlue", kind="enumerator")
             self.depth -= 1
@@ -743,7 +751,7 @@ class Gen:
             self.emit(self.ch(["procedure, pass(argA) :: tbSet", "procedure, nopass, public :: tbSet => subTwo",
                                "procedure(procP), deferred :: tbSet"]), kind="specific_binding")
             if self.p(0.6):
-                self.emit(self.ch(["generic :: tbGen => tbGet, tbSet", "generic, public :: operator(+) => tbGet",
+                self.emit(self.ch(["generic :: tbGen => tbGet, tbSet", "generic :: tbGen =>tbGet, tbSet", "generic, public :: operator(+) => tbGet",
                                    "generic :: assignment(=) => tbSet"]), kind="generic_binding")
             if self.p(0.4):
                 self.emit("final :: subTwo", kind="final_binding")
@@ -769,6 +777,7 @@ class Gen:
             ("real, save :: svR = 1.0e-3", "decl_init"),
             ("character(len = *), parameter :: cPar = %s" % self.char_lit(), "decl_char"),
             ("parameter (nPar = 5)", "parameter_stmt"),
+            ("parameter (rPar = (1.0e-3 + 2.0) * 4.0, sPar = 'a b, c')", "parameter_stmt"),
             ("dimension eArr(5)", "dimension_stmt"),
             ("common /cmnBlk/ cmA, cmB", "common"),
             ("data iCnt /0/", "data"),
